@@ -29,8 +29,10 @@ def gen_tree(rng, max_depth=4, width=3, root_init=False):
                 dirs.append(here)
                 if kind.startswith('pkg'):
                     add_file(here + '/__init__.py')
-                    if rng.random() < 0.3:
+                    if rng.random() < 0.35:
                         add_file(here + '/__main__.py')
+                elif rng.random() < 0.35:
+                    add_file(here + '/__main__.py')      # a script directory: __main__.py, no __init__.py
                 if depth < max_depth and rng.random() < 0.8:
                     fill(here + '/', depth + 1)
             if kind == 'plain':
@@ -61,6 +63,8 @@ def gen_tree(rng, max_depth=4, width=3, root_init=False):
             add_file(prefix + '__main__.py')
     if root_init:
         add_file('__init__.py')
+    if rng.random() < 0.3:
+        add_file('__main__.py')                          # directly in the search path entry
     return {'files': files, 'dirs': sorted(set(dirs))}
 
 
@@ -106,11 +110,19 @@ def candidate_names(tree, rng, limit=40):
             absent.add('.'.join(parts[1:]))
     absent.add('nope')
     absent.add('nope.a')
+    # names ending in __main__ / __init__ for every directory, package or not
+    special = set(['__main__', '__init__'])
+    for d in all_dirs(tree):
+        special.add(d.replace('/', '.') + '.__main__')
+        special.add(d.replace('/', '.') + '.__init__')
     names = present + sorted(absent - set(present))
-    if len(names) > limit:
-        keep = rng.sample(names, limit)
-        names = sorted(set(keep))
-    return names
+    special = sorted(special)
+    if len(special) > limit // 2:
+        special = ['__main__', '__init__'] + rng.sample(special, limit // 2 - 2)
+    names = [n for n in names if n not in special]
+    if len(names) > limit - len(special):
+        names = rng.sample(names, max(1, limit - len(special)))
+    return sorted(set(names) | set(special))
 
 
 def listing(top):
